@@ -92,6 +92,7 @@ func (r *Run) buildAndSolve(fns []*ssa.Function) {
 				vc.note("%v", err)
 				vc.obls = append(vc.obls, &Obl{Name: relFuncName(f) + "/vcgen", Kind: "engine", Func: f.String(), Status: "engine-error", Src: err.Error()})
 			} else {
+				vc.cross = r.tier == "thorough"
 				vc.Solve(r.dump, quickMs, raceS)
 			}
 			mu.Lock()
@@ -114,6 +115,7 @@ func (r *Run) buildAndSolve(fns []*ssa.Function) {
 					fmt.Fprintln(os.Stderr, "ENGINE-ERROR:", err)
 					return
 				}
+				vc.cross = r.tier == "thorough"
 				vc.Solve(r.dump, quickMs, raceS)
 				mu.Lock()
 				r.vcs = append(r.vcs, vc)
